@@ -83,7 +83,7 @@ def validation_plan(deep, ev, statuses):
     return PL.par(*[group(g) for g in deep.lines])
 
 
-def sc_validation(name, lines, rc, packages=None, soll=True, describe=""):
+def sc_validation(name, lines, rc, packages=None, soll=True, describe="", entry="deep"):
     from ahbicht.validation.validation import validate_data_element_freetext, validate_deep_anwendungshandbuch
     from ahbicht.models.validation_values import RequirementValidationValue
     from maus.models.anwendungshandbuch import AhbMetaInformation, DeepAnwendungshandbuch
@@ -100,12 +100,27 @@ def sc_validation(name, lines, rc, packages=None, soll=True, describe=""):
     ref_result = asyncio.run(ref())
     statuses = {r.discriminator: str(r.validation_result.requirement_validation) for r in ref_result}
     plan = validation_plan(deep, ev, statuses)
+    factory = lambda: validate_deep_anwendungshandbuch(copy.deepcopy(deep), soll_is_required=soll)
+    if entry == "segment":
+        # the first segment of the first group through validate_segment (group requirement IS_REQUIRED)
+        from ahbicht.validation.validation import validate_segment
+        seg = deep.lines[0].segments[0]
+        sub = DeepAnwendungshandbuch(meta=deep.meta, lines=[G_("wrapper", "Muss", [seg])])
+        full = validation_plan(sub, ev, dict(statuses, wrapper="IS_REQUIRED"))
+        plan = full[1][0][1][1][1][0]          # par[group seq[own, par[segment]]] -> the segment's plan
+        plan = PL.par(plan)[1][0]
+        factory = lambda: validate_segment(copy.deepcopy(seg), RequirementValidationValue.IS_REQUIRED, soll)
+
+        async def ref2():
+            return await validate_segment(copy.deepcopy(seg), RequirementValidationValue.IS_REQUIRED, soll)
+        GT.G.reset(auto=True, tag_text=True)
+        ref_result = asyncio.run(ref2())
     numbered = PL.number_labels(plan)
     expect = {}
     for l in PL.all_labels(numbered):
         if l.startswith("fc:"):
             expect[l] = (l.split("@", 1)[1].rsplit("#", 1)[0], "any")
-    sc = A.Scenario(name, plan, lambda: validate_deep_anwendungshandbuch(copy.deepcopy(deep), soll_is_required=soll), ev, tag_text=True,
+    sc = A.Scenario(name, plan, factory, ev, tag_text=True,
                     expect=expect, project=project, describe=describe or name)
 
     # the result of every free-text element equals the result of validating that element on its own
@@ -146,6 +161,8 @@ def scenarios(thorough):
                       {1: "F", 2: "F", 3: "F"}, describe="one segment, two free-text elements with the same format constraint key and different inputs"),
         sc_validation("segempty", [G_("g1", "Muss", [S_("s1", "Muss", [F_("e1", "Muss [1][901]", "a1"), F_("e2", "Muss [2][901]", None), F_("e3", "Muss [3][901]", "")])])],
                       {1: "F", 2: "F", 3: "F"}, describe="a filled element followed by elements without input (None / empty string) that carry the same format constraint"),
+        sc_validation("segdirect", [G_("g1", "Muss", [S_("s1", "Muss [1]", [F_("e1", "Muss [2][907]", "k7"), F_("e2", "Soll [3][907] Kann [4]", "m")])])],
+                      {1: "F", 2: "F", 3: "F", 4: "F"}, entry="segment", describe="validate_segment called directly: two elements, same key 907, inputs k7 / m"),
         sc_validation("seg11", [G_("g1", "X", [S_("s1", "Muss [1]", [F_("e1", "Muss [2][902] Kann [3][903]", "x2")]),
                                                S_("s2", "Kann [4]", [F_("e2", "X [5][902]", "y3"), F_("e3", "Muss [6]", None)])])],
                       {1: "F", 2: "U", 3: "F", 4: "F", 5: "F", 6: "F"}, describe="two segments; an element with two modal-mark parts; an element without input"),
